@@ -372,8 +372,12 @@ func (e *env) solveT(M [][]sc, rho []sc) ([]sc, bool) {
 //	        for sigma and tau, sets D = sigma*Gamma - W so that (33) holds, and runs an honest simple
 //	        shuffle on vectors of its own (this is what a verifier without the tie accepts).
 //	linear: the same without knowing any logarithm, for xb = M*x + beta*G, M invertible.
+//	        tie = 3: as an honest prover for the identity permutation except sigma = M^-T*rho and
+//	        D = sigma*Gamma - W; the tie then holds in aggregate exactly when the rows of M sum to 1.
 //	sigma:  honest commitments for a permutation of its choice, sigma[i0] and tau solved from (34),(35):
-//	        only (33) at i0 is violated.
+//	        only (33) at i0 is violated (tie = 0); or D follows sigma, so that (33) holds and only the Y half
+//	        of the tie at i0 is violated (tie = 1); or sigma moves along e_i0 - e_i1, so that moreover every
+//	        sum over the indices is the honest one (tie = 2: a verifier checking the tie in aggregate accepts).
 //	simple: as untied, but the simple shuffle is on R = A + lambda*B, S = C + lambda*D as the tie demands;
 //	        since S is then not a scaled permutation of R, one simple-shuffle equation (skip) stays violated.
 func (e *env) forgePair(in *inst, xb, yb []sc, o forgeOpt) proof.Prover {
@@ -392,6 +396,15 @@ func (e *env) forgePair(in *inst, xb, yb []sc, o forgeOpt) proof.Prover {
 				w[i] = e.zero()
 			}
 			l1, l2 = e.zero(), e.zero()
+			if o.tie == 3 {
+				// everything that does not depend on sigma as an honest prover for the identity
+				// permutation would send it: W = gamma*u*G, C = gamma*A, Lambda = tau0*(G,H)
+				for i := range w {
+					w[i] = u[i].Clone()
+					cc[i] = e.mul(gamma, a[i])
+				}
+				l1, l2 = e.mul(tau0, g), e.mul(tau0, h)
+			}
 		case "sigma":
 			// honest step 1 for permutation pi and blinding beta
 			piinv := make([]int, k)
@@ -411,7 +424,7 @@ func (e *env) forgePair(in *inst, xb, yb []sc, o forgeOpt) proof.Prover {
 		}
 		// logs of the points sent: scalar*g (the code multiplies G)
 		gw := mulAll(e, w, gamma)
-		if o.mode != "sigma" {
+		if o.mode != "sigma" && !(o.mode == "linear" && o.tie == 3) {
 			gw = w // W arbitrary: log of W[i] w.r.t. G is w[i]
 		}
 		p1 := &mEga1{Gamma: e.pt(e.mul(gamma, g)),
@@ -444,22 +457,39 @@ func (e *env) forgePair(in *inst, xb, yb []sc, o forgeOpt) proof.Prover {
 			}
 			sigma = s
 			tau = e.dot(sigma, o.beta)
+			if o.tie == 3 {
+				tau = e.sub(tau, tau0)
+			}
 		case "sigma":
 			for i := 0; i < k; i++ {
 				sigma[i] = e.add(w[i], b[pi[i]])
 			}
 			i0 := o.skip % k
-			for i := 0; i < k; i++ {
-				if i != i0 {
+			if o.tie == 2 {
+				// sigma = honest + eps*(e_a - e_b): the sum of sigma stays the honest one
+				i1 := (i0 + 1) % k
+				for i := 0; i < k; i++ {
 					r1 = e.sub(r1, e.mul(sigma[i], xb[i]))
 					r2 = e.sub(r2, e.mul(sigma[i], yb[i]))
 				}
+				eps, t0, ok := e.solve2(e.sub(xb[i0], xb[i1]), e.neg(g), e.sub(yb[i0], yb[i1]), e.neg(h), r1, r2)
+				if !ok {
+					return errNoForge
+				}
+				sigma[i0], sigma[i1], tau = e.add(sigma[i0], eps), e.sub(sigma[i1], eps), t0
+			} else {
+				for i := 0; i < k; i++ {
+					if i != i0 {
+						r1 = e.sub(r1, e.mul(sigma[i], xb[i]))
+						r2 = e.sub(r2, e.mul(sigma[i], yb[i]))
+					}
+				}
+				s0, t0, ok := e.solve2(xb[i0], e.neg(g), yb[i0], e.neg(h), r1, r2)
+				if !ok {
+					return errNoForge
+				}
+				sigma[i0], tau = s0, t0
 			}
-			s0, t0, ok := e.solve2(xb[i0], e.neg(g), yb[i0], e.neg(h), r1, r2)
-			if !ok {
-				return errNoForge
-			}
-			sigma[i0], tau = s0, t0
 		default:
 			// pivots: two slots with independent (xb,yb)
 			p0, p1i := -1, -1
@@ -491,7 +521,7 @@ func (e *env) forgePair(in *inst, xb, yb []sc, o forgeOpt) proof.Prover {
 			sigma[p0], sigma[p1i] = s0, s1
 		}
 		for i := 0; i < k; i++ {
-			if o.mode == "sigma" {
+			if o.mode == "sigma" && o.tie == 0 {
 				d[i] = e.mul(gamma, b[pi[i]])
 			} else {
 				d[i] = e.sub(e.mul(sigma[i], gamma), gw[i]) // (33): sigma*Gamma = W + D
@@ -519,7 +549,15 @@ func (e *env) forgePair(in *inst, xb, yb []sc, o forgeOpt) proof.Prover {
 		case "simple":
 			return e.forgeSimple(ctx, g, gamma, r, s, o.skip%(2*k))
 		case "sigma":
+			// the honest simple shuffle on R and gamma*perm(R); with tie > 0 the D that was sent follows
+			// sigma, so C + lambda*D differs from S exactly where sigma differs from the honest value
+			for i := 0; i < k; i++ {
+				s[i] = e.mul(gamma, r[pi[i]])
+			}
 			return e.forgeSimple(ctx, g, gamma, r, s, k)
+		}
+		if o.mode == "linear" && o.tie == 3 {
+			return e.forgeSimple(ctx, g, gamma, r, mulAll(e, r, gamma), k)
 		}
 		// untied / linear: an honest simple shuffle on vectors of the prover's choosing
 		xs := e.rnds(k)
